@@ -226,9 +226,9 @@ func (s *sgen) runCase(id int) bool {
 			fault := ""
 			var mut *mutation
 			if s.p.pHold > 0 && s.r.chance(s.p.pHold) {
-				fault = "holdsnap"
-				if s.r.intn(2) == 0 {
-					fault = "holdbg"
+				fault = []string{"holdsnap", "holdbg", "holdread"}[s.r.intn(3)]
+				if fault == "holdread" && len(sel) > 1 { // one pack: the gate must not meet the reads of a second pack's request
+					sel = []int{sel[s.r.intn(len(sel))]}
 				}
 				s.held++
 			} else if s.p.pNoSnap > 0 && s.r.chance(s.p.pNoSnap) {
